@@ -299,4 +299,83 @@ Proof.
       destruct (Nat.eqb_spec ci v1); [contradiction | ring].
 Qed.
 
+(* ---------- divergence ---------- *)
+Lemma rot_other a b k x : x <> a -> x <> b -> rot_fl a b k x = false /\ src_ax a b k x = x.
+Proof.
+  intros Na Nb. unfold rot_fl, src_ax, sigma.
+  apply Nat.eqb_neq in Na. apply Nat.eqb_neq in Nb. rewrite Na, Nb.
+  split; [destruct (mod4_cases k) as [H|[H|[H|H]]]; rewrite H; reflexivity | destruct (Z.odd k); reflexivity].
+Qed.
+
+(* axes c = axis component c is mapped to; v1, v2 = the components mapped to a and b (what the reversed
+   mapping returns for a bijective mapping); every other component is mapped elsewhere *)
+Theorem div_rot90 (M : cmesh K) a b k nv v valid (q : idx) axes v1 v2 z :
+  rot_ok M a b k q -> v1 <> v2 -> (v1 < length axes)%nat -> (v2 < length axes)%nat ->
+  nth v1 axes 0%nat = a -> nth v2 axes 0%nat = b ->
+  (forall ci, (ci < length axes)%nat -> (nth ci axes 0 < cm_nd M)%nat) ->
+  (forall ci, (ci < length axes)%nat -> ci <> v1 -> ci <> v2 -> nth ci axes 0%nat <> a /\ nth ci axes 0%nat <> b) ->
+  div_v K (rotM K M a b k) axes
+        (rot_comp K (fst (kturn K k)) (snd (kturn K k)) v1 v2 (rot90 (cm_sh M ++ [nv]) a b k v))
+        (rot90 (cm_sh M) a b k valid) (q ++ [z])
+  = rot90 (cm_sh M ++ [1%nat]) a b k (div_v K M axes v valid) (q ++ [z]).
+Proof.
+  intros Hok H12 L1 L2 A1 A2 Hax Hoth.
+  pose proof (@ok_len _ _ _ _ _ Hok) as Hq. pose proof (ok_q Hok) as [Hq' Hr].
+  pose proof (ok_a Hok) as Ha. pose proof (ok_b Hok) as Hb. pose proof (ok_ab Hok) as Hab.
+  rewrite rot90_app by (try assumption; exact Hq).
+  unfold div_v. rewrite !cell0_app.
+  set (c := fst (kturn K k)). set (s := snd (kturn K k)).
+  set (Rv := rot90 (cm_sh M ++ [nv]) a b k v).
+  set (M' := rotM K M a b k). set (valid' := rot90 (cm_sh M) a b k valid).
+  set (D := fun y cj => dax K M 1 y (comp K cj v) valid (rho (cm_sh M) a b k q ++ [0%nat])).
+  assert (E : forall x cj, (x < cm_nd M)%nat ->
+            dax K M' 1 x (comp K cj Rv) valid' (q ++ [0%nat]) = msgn K (rot_fl a b k x) 1 (D (src_ax a b k x) cj)).
+  { intros x cj Hx. unfold D.
+    rewrite <- (@dax_rot90_cell M a b k x 1%nat (comp K cj v) valid q Hok Hx (or_introl eq_refl)).
+    apply dax_ext_cells; [unfold M'; rewrite rotM_nd; exact Hx | unfold M'; rewrite rotM_nd; exact Hq |].
+    intros q0 Hq0. unfold M' in Hq0. rewrite rotM_nd in Hq0. apply comp_rot90_cells; assumption. }
+  assert (Rng : forall x, (x < cm_nd M)%nat -> (nth x (q ++ [0%nat]) 0 < nth x (cm_sh M') 0)%nat).
+  { intros x Hx. rewrite app_nth1 by lia. apply Hr. unfold M'. fold (cm_nd (rotM K M a b k)). rewrite rotM_nd. exact Hx. }
+  set (term := fun ci => dax K M' 1 (nth ci axes 0%nat)
+                (comp K ci (rot_comp K c s v1 v2 Rv)) valid' (q ++ [0%nat])).
+  set (T := fun ci => D (nth ci axes 0%nat) ci).
+  assert (T1 : term v1 = c * msgn K (rot_fl a b k a) 1 (D (src_ax a b k a) v1)
+                         + fopp s * msgn K (rot_fl a b k a) 1 (D (src_ax a b k a) v2)).
+  { unfold term. rewrite A1. rewrite <- !E by exact Ha.
+    rewrite <- dax_lin by (try apply Rng; unfold M'; rewrite ?rotM_nd; exact Ha).
+    apply dax_ext_cells; [unfold M'; rewrite rotM_nd; exact Ha | unfold M'; rewrite rotM_nd; exact Hq |].
+    intros q0 _. unfold comp, rot_comp. rewrite !removelast_app1, last_app1.
+    destruct (Nat.eqb_spec v1 v2); [contradiction|]. rewrite Nat.eqb_refl. ring. }
+  assert (T2 : term v2 = s * msgn K (rot_fl a b k b) 1 (D (src_ax a b k b) v1)
+                         + c * msgn K (rot_fl a b k b) 1 (D (src_ax a b k b) v2)).
+  { unfold term. rewrite A2. rewrite <- !E by exact Hb.
+    rewrite <- dax_lin by (try apply Rng; unfold M'; rewrite ?rotM_nd; exact Hb).
+    apply dax_ext_cells; [unfold M'; rewrite rotM_nd; exact Hb | unfold M'; rewrite rotM_nd; exact Hq |].
+    intros q0 _. unfold comp, rot_comp. rewrite !removelast_app1, last_app1.
+    rewrite Nat.eqb_refl. reflexivity. }
+  assert (Pair : term v1 + term v2 = T v1 + T v2).
+  { rewrite T1, T2. unfold T. rewrite A1, A2. unfold c, s, rot_fl, src_ax, msgn, msign, sigma.
+    rewrite <- (odd_mod4 k).
+    destruct (kturn_cases k) as [[H E']|[[H E']|[[H E']|[H E']]]]; rewrite H, E'; cbn [fst snd Z.odd];
+      rewrite ?Nat.eqb_refl; destruct (Nat.eqb_spec a b); try contradiction;
+      destruct (Nat.eqb_spec b a); try (exfalso; congruence); cbn [orb]; ring. }
+  transitivity (Σ (map (fun ci => T ci + ((if (ci =? v1)%nat then term v1 - T v1 else 0)
+                                          + (if (ci =? v2)%nat then term v2 - T v2 else 0)))
+                       (iota 0 (length axes)))).
+  - apply fsum_map_ext. intros ci Hci. apply In_iota in Hci. fold (term ci).
+    destruct (Nat.eqb_spec ci v1) as [E1|N1]; destruct (Nat.eqb_spec ci v2) as [E2|N2];
+      [exfalso; congruence | subst ci; ring | subst ci; ring | ].
+    destruct (Hoth ci ltac:(lia) N1 N2) as [Oa Ob].
+    destruct (rot_other a b k (nth ci axes 0%nat) Oa Ob) as [F S].
+    unfold term, T.
+    transitivity (dax K M' 1 (nth ci axes 0%nat) (comp K ci Rv) valid' (q ++ [0%nat])).
+    + apply dax_ext_cells; [unfold M'; rewrite rotM_nd; apply Hax; lia | unfold M'; rewrite rotM_nd; exact Hq |].
+      intros q0 _. unfold comp, rot_comp. rewrite !removelast_app1, last_app1.
+      destruct (Nat.eqb_spec ci v2); [contradiction|]. destruct (Nat.eqb_spec ci v1); [contradiction|]. reflexivity.
+    + rewrite E by (apply Hax; lia). rewrite F, S. unfold msgn. ring.
+  - rewrite !(@fsum_map_add K HK). rewrite !fsum_delta by lia.
+    fold T. transitivity (Σ (map T (iota 0 (length axes))) + ((term v1 + term v2) - (T v1 + T v2))); [ring|].
+    rewrite Pair. transitivity (Σ (map T (iota 0 (length axes)))); [ring | reflexivity].
+Qed.
+
 End Commute.
